@@ -213,6 +213,20 @@ class LabKind(Kind):
 LabK = LabKind()
 
 
+class SymKind(Kind):
+    """opaque symbolic constant (e.g. a directory name): only its identity matters"""
+    name = "sym"
+
+    def fresh(self, prefix):
+        return ConstV(prefix)
+
+    def __repr__(self):
+        return self.name
+
+
+SymK = SymKind()
+
+
 class SeqV:
     """immutable snapshot of a list / 1-D array: length + z3 array of element sort"""
 
@@ -278,6 +292,13 @@ class FuncV:
 class LambdaV:
     def __init__(self, node, env):
         self.node, self.env = node, env
+
+
+class PathV:
+    """file-system path as a structural key (different expressions = different files; see contracts/tdmps.py)"""
+
+    def __init__(self, key):
+        self.key = key
 
 
 class ConstV:
@@ -374,6 +395,7 @@ class State:
         self.parent = None   # enclosing State env for closures is handled by Env chain
         self.ghost = {}      # ghost names (loop indices, old_ values)
         self.trace = []      # textual branch decisions (for messages)
+        self.fs = {}         # ghost file system: path key -> z3 Int (0 absent, 1 partial/unreadable, 2+g complete, generation g)
 
     def fork(self):
         s = State()
@@ -382,6 +404,7 @@ class State:
         s.pc = list(self.pc)
         s.ghost = self.ghost.copy()
         s.trace = list(self.trace)
+        s.fs = self.fs.copy()
         return s
 
     def assume(self, f):
@@ -452,6 +475,7 @@ class Contract:
         self.consts = set(consts)
         self.defaults = defaults or {}
         self.ufuncs = {}
+        self.crash_invariant = None   # spec evaluated at every crash point of the ghost file system
         self.local_kinds = {}     # declared kinds of locals initialised with an empty literal, e.g. {"ret": "list[list[int]]"}
 
 
@@ -471,6 +495,8 @@ def parse_kind(s, records=None):
         return SetIntK
     if s == "lab":
         return LabK
+    if s == "sym":
+        return SymK
     if s.startswith("list[") and s.endswith("]"):
         return ListK(parse_kind(s[5:-1], records))
     if s.startswith("rec:"):
@@ -482,7 +508,7 @@ def parse_kind(s, records=None):
 
 def fresh_value(st, kind, prefix):
     """allocate a fresh symbolic value of `kind`; mutable kinds live on the heap"""
-    if isinstance(kind, ScalarK) or isinstance(kind, OptK) or isinstance(kind, LabKind):
+    if isinstance(kind, ScalarK) or isinstance(kind, OptK) or isinstance(kind, LabKind) or isinstance(kind, SymKind):
         return kind.fresh(prefix)
     if isinstance(kind, ListK):
         v = kind.fresh(prefix)
@@ -565,6 +591,8 @@ class Executor:
         self.n_paths = 0
         self.feas_cache = {}
         self.inline_nodes = {}     # method name -> FunctionDef inlined at call sites (contract.inline)
+        self.entry_fs = {}         # ghost file system at function entry
+        self.crash_ordinal = 0
         self.bound = None          # finite-universe mode for refutation (see forall_idx)
         self.restrictions = []     # search restrictions added in finite mode (lengths <= bound, set elements in [0, bound))
 
@@ -654,6 +682,7 @@ class Executor:
         node = ast.parse(expr, mode="eval").body
         sub = st.fork()
         sub.pc = st.pc  # share (spec evaluation adds no assumptions except definitional axioms)
+        sub.fs = st.fs  # share: ghost files first mentioned in a spec are the same files the code sees
         sub.env.update(st.ghost)
         if extra:
             sub.env.update(extra)
@@ -688,6 +717,11 @@ class Executor:
                 n = sum(1 for x in self.fn.body[: self.fn.body.index(s)] if type(x).__name__ == t)
                 self.stmt_counter[("top", id(s))] = n
             key = f"{t}#{n}"
+            # statements may also be selected by content: "If@<text occurring in the test>" (robust against inserted statements)
+            if key not in self.c.abstract and isinstance(s, ast.If):
+                for k2 in self.c.abstract:
+                    if k2.startswith("If@") and k2[3:] in ast.unparse(s.test):
+                        key = k2
             if key in self.c.abstract:
                 ab = self.c.abstract[key]
                 for name, kstr in ab.get("havoc", {}).items():
@@ -1284,8 +1318,14 @@ class Executor:
         is_and = isinstance(e.op, ast.And)
         vals = []
         cur = st
+        guards = set()
         for x in e.values:
+            n0 = len(cur.pc)
             v = self.eval(x, cur)
+            if cur is not st:
+                # definitional facts (ghost files, counters ...) introduced while evaluating this operand are unconditional
+                for f in cur.pc[n0:]:
+                    st.pc.append(f)
             vals.append(v)
             if isinstance(v, bool):
                 if v != is_and:       # False in `and` / True in `or`: the rest is not evaluated
@@ -1294,6 +1334,7 @@ class Executor:
             g = to_bool(v)
             nxt = cur.fork()
             nxt.pc = list(cur.pc)
+            nxt.fs = cur.fs
             nxt.in_spec = getattr(cur, "in_spec", False)
             nxt.pc.append(g if is_and else z3.Not(g))
             cur = nxt
@@ -1332,6 +1373,11 @@ class Executor:
                 return a // b
             if isinstance(op, ast.Mod) and b > 0:
                 return a % b
+        if isinstance(op, ast.Add) and (isinstance(a, PathV) or isinstance(b, PathV) or
+                                       (isinstance(a, (str, ConstV)) and isinstance(b, (str, ConstV)) and (isinstance(a, ConstV) or isinstance(b, ConstV)))):
+            def k(x):
+                return x.key if isinstance(x, PathV) else (x if isinstance(x, str) else f"<{x.obj}>")
+            return PathV(k(a) + k(b))
         if isinstance(a, LabV) or isinstance(b, LabV):
             if not isinstance(op, (ast.Add, ast.Sub)):
                 raise VCError("label arrays support + and - only")
@@ -1956,6 +2002,92 @@ class Executor:
         nrm = fresh("norm", z3.RealSort())
         st.pc.append(nrm >= 0)   # assumed contract of scipy.linalg.norm
         return nrm
+
+    # ---- ghost file system (crash-safety proofs): every call is a crash point
+    def fs_get(self, st, p):
+        if not isinstance(p, PathV):
+            raise VCError("file-system call on a non-path value")
+        if p.key not in st.fs:
+            v = fresh("fs0_" + "".join(c if c.isalnum() else "_" for c in p.key)[-40:], z3.IntSort())
+            st.pc.append(v >= 0)
+            st.fs[p.key] = v
+            self.entry_fs.setdefault(p.key, v)
+        return st.fs[p.key]
+
+    def crash_point(self, st, node, what):
+        inv = self.c.crash_invariant
+        if inv is None:
+            return
+        self.crash_ordinal += 1
+        g = self.eval_spec(inv, st)
+        self.emit(f"crash-inv:{self.c.qualname}:{self.crash_ordinal:02d}:{what}", "crash", st, g, node, note=f"process dies {what}")
+
+    def _path_arg(self, e, st, i=0):
+        v = self.eval(e.args[i], st)
+        if isinstance(v, (str, ConstV)):
+            v = PathV(v if isinstance(v, str) else f"<{v.obj}>")
+        return v
+
+    def x_os_path_join(self, e, st):
+        parts = [self.eval(a, st) for a in e.args]
+        def k(x):
+            return x.key if isinstance(x, PathV) else (x if isinstance(x, str) else f"<{x.obj}>")
+        return PathV("/".join(k(p_) for p_ in parts))
+
+    def x_os_makedirs(self, e, st):
+        self.crash_point(st, e, "before makedirs")
+        return None
+
+    def x_os_path_exists(self, e, st):
+        p = self._path_arg(e, st)
+        return self.fs_get(st, p) != 0
+
+    def x_os_remove(self, e, st):
+        p = self._path_arg(e, st)
+        cur = self.fs_get(st, p)
+        self.crash_point(st, e, f"before remove({ast.unparse(e.args[0])})")
+        self.emit(f"fs:{self.c.qualname}:L{e.lineno - self.fn.lineno}:remove-existing", "fs", st, cur != 0, e, note="os.remove of a missing file raises")
+        st.assume(cur != 0)
+        st.fs[p.key] = z3.IntVal(0)
+        return None
+
+    def _move(self, e, st, name):
+        src, dst = self._path_arg(e, st, 0), self._path_arg(e, st, 1)
+        cur = self.fs_get(st, src)
+        self.fs_get(st, dst)
+        self.crash_point(st, e, f"before {name}({ast.unparse(e.args[0])}, {ast.unparse(e.args[1])})")
+        self.emit(f"fs:{self.c.qualname}:L{e.lineno - self.fn.lineno}:{name}-existing-source", "fs", st, cur != 0, e)
+        st.assume(cur != 0)
+        st.fs[dst.key] = cur          # atomic on POSIX (trusted)
+        st.fs[src.key] = z3.IntVal(0)
+        return None
+
+    def x_os_rename(self, e, st):
+        return self._move(e, st, "rename")
+
+    def x_os_replace(self, e, st):
+        return self._move(e, st, "replace")
+
+    def x_np_savez(self, e, st):
+        p = self._path_arg(e, st)
+        self.fs_get(st, p)
+        self.crash_point(st, e, f"before savez({ast.unparse(e.args[0])})")
+        st.fs[p.key] = z3.IntVal(1)   # not atomic: the file is partial while it is written
+        self.crash_point(st, e, f"during savez({ast.unparse(e.args[0])})")
+        gen = st.env.get("__gen__")
+        st.fs[p.key] = 2 + to_z3(gen, IntK)
+        return None
+
+    def b_fstate(self, e, st):
+        """spec function: ghost state of a path"""
+        p = self._path_arg(e, st)
+        return self.fs_get(st, p)
+
+    def b_fstate0(self, e, st):
+        """spec function: ghost state of a path at function entry"""
+        p = self._path_arg(e, st)
+        self.fs_get(st, p)
+        return self.entry_fs[p.key]
 
     def b_count_gt_div(self, e, st):
         """spec function: #{i : seq[i]/d > t}"""
